@@ -28,8 +28,8 @@ TRUSTED = [
 ]
 ASSUMPTIONS = [
     "leaf functions are verified one by one from arbitrary well-formed object states (wf_super, wf_meta, wf_inode, wf stream state) - each wf predicate is ensured by the harness of the function that produces the object (super, meta_seek/meta_read loop invariant, read_inode, dr_create_stream) and required by the consumers; the composition into rdsquashfs / sqfs2tar / sqfsdiff main() is not verified",
-    "NOT covered: sqfs_dir_reader_* (open_dir, read, get_inode, resolve_path, dcache), dir_iterator.c, fill_dir / sqfs_dir_reader_get_full_hierarchy (only would_be_own_parent, bounded to an ancestor chain of 4), sqfs_tree_node_get_path, sqfs_inode_unpack_dir_index_entry, sqfs_dir_entry_from_inode, sqfs_xattr_reader_read (realloc variant: did not finish in 170 s) and read_all, the bin/ tools",
-    "bounded stand-ins (not counted as proved): read_inode_dir_ext with <= 3 index entries, sqfs_data_reader_read with <= 3 block words, sqfs_data_reader_get_block with index <= 3, xattr id table <= 2 blocks, ancestor chain <= 4",
+    "NOT covered: sqfs_dir_reader_* (open_dir, read, get_inode, resolve_path, dcache), dir_iterator.c, fill_dir / sqfs_dir_reader_get_full_hierarchy (only would_be_own_parent, bounded to an ancestor chain of 4; a harness over fill_dir itself with the directory reader as a contract did not get through symbolic execution in 170 s even for one entry per directory and one level - so that fill_dir actually CALLS the check for every child is not verified), sqfs_tree_node_get_path, sqfs_inode_unpack_dir_index_entry, sqfs_dir_entry_from_inode, sqfs_xattr_reader_read (realloc variant: did not finish in 170 s) and read_all, the bin/ tools",
+    "bounded stand-ins (not counted as proved): read_inode_dir_ext with <= 1 index entry (2 entries hit the 14 GB memory cap), sqfs_data_reader_read with <= 3 block words, sqfs_data_reader_get_block with index <= 3, xattr id table <= 2 blocks, ancestor chain <= 4",
     "termination is proved as a decreases clause / unwinding assertion per loop, plus C05.readdir.progress and C05.dr_stream.progress for consumer loops; wall-clock bounds and the recursion depth of the tree walk are not",
     "payload bytes are tracked through one arbitrary witness position per buffer; short on-disk records (<= 40 / 96 bytes) are fully symbolic",
     "--conversion-check is disabled in readdir and xattr_kv (signed inode_diff added to an unsigned base on purpose; 16 bit fields widened); everywhere else all of cbmc's bounds / pointer / overflow / conversion / shift checks are on",
@@ -53,13 +53,13 @@ def _inode_cases():
 
 def _dir_ext_cases():
     return [dict(id="idx%d" % k, defines={"ITYPE": 8, "NIDX": k},
-                 tier="quick" if k <= 1 else "thorough",
+                 tier="quick" if k == 0 else "thorough", timeout=900,
                  # loop .0 is the inner doubling `while` (at most 57 doublings
                  # of a size_t starting at 128), loop .1 the `for` over the
                  # index entries (inodex_count fixed to k by the harness)
                  unwindset=["read_inode_dir_ext.0:60",
                             "read_inode_dir_ext.1:%d" % (k + 1), "harness.0:%d" % (k + 1)])
-            for k in range(0, 4)]
+            for k in range(0, 2)]   # 2 and 3 entries exceed the memory cap / 15 min
 
 _FP_DR = dict(_ENV, destroy="data_reader_destroy", copy="data_reader_copy")
 HARNESSES = [
@@ -80,7 +80,7 @@ HARNESSES = [
     dict(name="read_inode_file_ext", file="read_inode.c", label="proved", timeout=170,
          malloc_fail=True, flags=_UF, loops=["read_inode_file_ext"], defines={"ITYPE": 9, "INO_LOOP_HAVOC": 1}),
     dict(name="read_inode_dir_ext", file="read_inode.c",
-         label="bounded(dir index entries <= 3)", timeout=170,
+         label="bounded(dir index entries <= 1)", timeout=170,
          malloc_fail=True, flags=_UF, cases=_dir_ext_cases()),
     dict(name="readdir", file="readdir.c", label="proved", timeout=170,
          nochecks=["--conversion-check"], malloc_fail=True, flags=_UF),
@@ -103,7 +103,7 @@ HARNESSES = [
     dict(name="dr_read", file="dr_read.c", label="bounded(block words <= 3)", timeout=170,
          fp=_FP_DR, malloc_fail=True, flags=_UF,
          cases=[dict(id="nblk%d" % n, defines={"NBLK": n}, unwind=n + 2,
-                     tier="quick" if n <= 2 else "thorough") for n in range(0, 4)]),
+                     tier="quick" if n <= 1 else "thorough", timeout=600) for n in range(0, 4)]),
     # a loop contract on the walk over the preceding block words makes
     # goto-instrument 6.11 fail ("Recursive call to 'get_block' during
     # inlining"), so the index is bounded and the loop unwound
